@@ -46,10 +46,22 @@ def jOptBools : Option (List Bool) → Json
   | some l => jBools l
 
 /-- request: {cfg:{kind,start,every,nt,ntStart,selT,n,nStart,selX},
+              sizes:{sampT,sampX,bT,bX,dim,missingStart}, rejected?: error kind,
               trace:[{stepped, iterNb, fromLast?, pT?, pX?}]}   (iteration 0, 1, …)
     The model is run for as many iterations; `Holds.C16` is evaluated on the observed run. -/
+def getLegal (j : Json) (c : Cfg) : Except String Bool := do
+  let z ← j.getObjVal? "sizes"
+  pure (legalCfg c (← getNat z "sampT") (← getNat z "sampX") (← getNat z "bT") (← getNat z "bX")
+    (← getNat z "dim") (← getBool z "missingStart"))
+
 def handleC16 (j : Json) : Except String Json := do
   let c ← getCfg (← j.getObjVal? "cfg")
+  let legal ← getLegal j c
+  -- a rejected configuration: the model rejects exactly the illegal ones
+  if (← getOpt j "rejected" (·.getStr?)).isSome then
+    let h := rejectedCheck legal
+    return Json.mkObj [("holds", Json.bool h.isNone), ("clause", jOptStr h), ("legal", Json.bool legal),
+      ("agree", Json.bool (!legal))]
   let tr ← getArr j "trace"
   let obs ← tr.mapM (fun r => do
     pure ({ stepped := ← getBool r "stepped", iterNb := ← getNat r "iterNb",
@@ -68,7 +80,7 @@ def handleC16 (j : Json) : Except String Json := do
   let firstBad := (agreeAt.zipIdx.find? (fun (a, _) => !a)).map (·.2)
   let modelHolds := holdsC16 c (model.map (recOfObs c))
   pure <| Json.mkObj [
-    ("holds", Json.bool holds.isNone), ("clause", jOptStr holds),
+    ("holds", Json.bool holds.isNone), ("clause", jOptStr holds), ("legal", Json.bool legal),
     ("agree", Json.bool firstBad.isNone),
     ("first_disagreement", match firstBad with | none => Json.null | some i => Json.num (i : Nat)),
     ("model_holds", Json.bool modelHolds.isNone),
